@@ -19,6 +19,7 @@ func init() {
 	ops["concat"] = opConcat
 	ops["msgstate"] = opMsgState
 	ops["accessors"] = opAccessors
+	ops["addrstr"] = opAddrStr
 	gens["C10"] = genC10
 	gens["C11"] = genC11
 }
@@ -233,8 +234,10 @@ func opAccessors(args []string) string {
 	if rerr != nil || p == nil {
 		return "skip"
 	}
-	_ = fmt.Sprint(p)
-	_ = fmt.Sprintf("%+v %#v %s", p, p, p)
+	// fmt recovers panics of String methods and prints "%!v(PANIC=String method: ...)": look for it
+	if txt := fmt.Sprint(p) + fmt.Sprintf("%+v %s", p, p); strings.Contains(txt, "PANIC=") {
+		return "x !! C11:string-method-panicked-under-fmt"
+	}
 	v := reflect.ValueOf(p).Elem()
 	ch := "nil"
 	for i := 0; i < v.NumField(); i++ {
@@ -242,7 +245,19 @@ func opAccessors(args []string) string {
 		if s, ok := f.(fmt.Stringer); ok {
 			_ = s.String()
 		}
-		_ = fmt.Sprint(v.Field(i).Interface())
+		if strings.Contains(fmt.Sprint(v.Field(i).Interface()), "PANIC=") {
+			return "x !! C11:string-method-panicked-under-fmt"
+		}
+		if recs, ok := f.(*pdu.UnsuccessfulRecords); ok {
+			for _, rec := range *recs {
+				_ = rec.String()
+			}
+		}
+		if d, ok := f.(*pdu.DestinationAddresses); ok {
+			for _, a := range d.Addresses {
+				_ = a.String()
+			}
+		}
 		if m, ok := f.(*pdu.ShortMessage); ok {
 			_, _ = m.Parse()
 			if h := m.UDHeader.ConcatenatedHeader(); h != nil {
@@ -266,6 +281,17 @@ func opAccessors(args []string) string {
 		add(d)
 	}
 	return fmt.Sprintf("ok %d %d ch=%s resp=%s", pdu.ReadSequence(p), pdu.ReadCommandStatus(p), ch, resp)
+}
+
+func opAddrStr(args []string) string {
+	if len(args) != 1 {
+		return "bad-op"
+	}
+	a, ok := parseAddrTok(args[0])
+	if !ok {
+		return "bad-op"
+	}
+	return canon.Hex([]byte(a.String()))
 }
 
 // ---------------------------------------------------------------- generators
@@ -437,6 +463,27 @@ func genC11(r *gen.Rng, tier string, emit func(string)) {
 			if tier == "thorough" {
 				for _, z := range alpha {
 					emit("combine " + x + ";" + y + ";" + z)
+				}
+			}
+		}
+	}
+	// Address.String on every (ton, npi) in 0..3 x 0..3 with empty / '+'-prefixed / plain numbers
+	for ton := 0; ton < 4; ton++ {
+		for npi := 0; npi < 4; npi++ {
+			for _, no := range []string{"", "+", "+49", "49", "0"} {
+				emit(fmt.Sprintf("addrstr %d.%d.%s", ton, npi, canon.Hex([]byte(no))))
+				// and inside PDUs of the address-bearing types
+				a := pdu.Address{TON: byte(ton), NPI: byte(npi), No: no}
+				for _, p := range []interface{}{
+					&pdu.DeliverSM{Header: pdu.Header{Sequence: 3}, SourceAddr: a, DestAddr: a},
+					&pdu.SubmitMulti{Header: pdu.Header{Sequence: 3}, SourceAddr: a, DestAddrList: pdu.DestinationAddresses{Addresses: []pdu.Address{a, a}}},
+					&pdu.SubmitMultiResp{Header: pdu.Header{Sequence: 3}, UnsuccessfulSMEs: pdu.UnsuccessfulRecords{{DestAddr: a, ErrorStatusCode: 9}}},
+					&pdu.AlertNotification{Header: pdu.Header{Sequence: 3}, SourceAddr: a, ESMEAddr: a},
+					&pdu.BindTransceiver{Header: pdu.Header{Sequence: 3}, AddressRange: a},
+				} {
+					if f, cls, _, _ := doMarshal(p); cls == "nil" {
+						emit("accessors " + canon.Hex(f))
+					}
 				}
 			}
 		}
